@@ -36,17 +36,26 @@ RECURSIVE TotalInflowAt(_, _, _, _)
 TotalInflowAt(p, nd, d, u) == IF u = 0 THEN <<>> ELSE LAdd(Inflow(p, nd, u, d), TotalInflowAt(p, nd, d, u - 1))
 TotalInflow(p, nd, d) == TotalInflowAt(p, nd, d, Len(p.users))
 
-GaugeEq(g, h) == /\ g.id = h.id /\ g.kind = h.kind /\ g.denom = h.denom /\ LEq(g.dep, h.dep) /\ LEq(g.dist, h.dist)
+GaugeEq(g, h) == /\ g.id = h.id /\ g.kind = h.kind /\ g.denom = h.denom /\ g.ddenom = h.ddenom /\ LEq(g.dep, h.dep) /\ LEq(g.dist, h.dist)
                  /\ g.trig = h.trig /\ g.tot = h.tot /\ g.active = h.active /\ g.start = h.start /\ g.dur = h.dur
                  /\ g.pool = h.pool /\ g.master = h.master /\ g.childs = h.childs
-GaugeMoved(g, h) == ~LEq(g.dist, h.dist) \/ g.trig # h.trig \/ ~LEq(g.dep, h.dep)
+GaugeMoved(g, h) == ~LEq(g.dist, h.dist) \/ g.trig # h.trig \/ ~LEq(g.dep, h.dep) \/ g.denom # h.denom \/ g.ddenom # h.ddenom
+(* what gauge g paid in the step according to its own books, in g.denom (the distributed total carries its own denom: *)
+(* after a change of the swap-fee distribution denom it restarts with the first payout in the new denom)              *)
+PaidBooks(g, h) == IF h.ddenom = g.ddenom THEN LMonus(h.dist, g.dist) ELSE h.dist
+CollSame(p, st, d) == \A q \in 1..Len(p.pools) : LEq(p.pools[q].coll[d], st.pools[q].coll[d])
 ExtUnchanged(p, st, d) ==
   \A i \in 1..Len(st.ext) : st.ext[i].denom = d =>
      \E j \in 1..Len(p.ext) : /\ p.ext[j].kind = st.ext[i].kind /\ p.ext[j].id = st.ext[i].id
                               /\ LEq(p.ext[j].avail, st.ext[i].avail) /\ p.ext[j].neg = st.ext[i].neg
+(* a swap-fee gauge whose payout the code may leave out of its books: its pair has several pools and an oracle price of *)
+(* the pair is missing (the fee pull then fails after the distribution and the gauge record is not written back)          *)
+MayPayUnbooked(p, j) == LET g == p.gauges[j] IN
+  g.kind = "swap" /\ g.dep # <<>> /\ p.pools[g.pool].multi /\ ~(p.pools[g.pool].qOn /\ p.pools[g.pool].bOn)
 (* gauge k is the only thing that paid out coins of its denom in this block *)
 SolePayer(p, nd, k) ==
-  /\ \A j \in 1..Len(p.gauges) : j # k /\ p.gauges[j].denom = p.gauges[k].denom => ~GaugeMoved(p.gauges[j], nd.st.gauges[j])
+  /\ \A j \in 1..Len(p.gauges) : j # k /\ p.gauges[j].denom = p.gauges[k].denom => ~MayPayUnbooked(p, j)
+  /\ \A j \in 1..Len(p.gauges) : j # k /\ p.gauges[j].denom = p.gauges[k].denom => PaidBooks(p.gauges[j], nd.st.gauges[j]) = <<>>
   /\ ExtUnchanged(p, nd.st, p.gauges[k].denom)
 
 AllocNow(g) == IF g.kind = "swap" THEN g.dep ELSE AllocOf(g.dep, g.tot, g.trig + 1)
@@ -73,7 +82,7 @@ C19EpochCap(nd) == nd.a = "BeginBlock" =>
     /\ g2.trig >= g.trig
     /\ g.kind = "reg" => /\ LLe(g.dist, g2.dist)
                          /\ LLe(g2.dist, LAdd(g.dist, AllocRange(g, g.trig + 1, g2.trig)))
-    /\ g.kind = "swap" /\ g2.denom = g.denom => LLe(g2.dist, LAdd(g.dist, g.dep))
+    /\ g.kind = "swap" => LLe(PaidBooks(g, g2), g.dep)
     /\ g2.trig > g.trig /\ SolePayer(p, nd, k) =>
           LLe(TotalInflow(p, nd, g.denom), IF g.kind = "swap" THEN g.dep ELSE AllocRange(g, g.trig + 1, g2.trig))
 (* nothing is paid and no epoch is consumed outside the epoch hook *)
@@ -81,22 +90,15 @@ C19OnlyInEpoch(nd) == ~IsSplit(nd) /\ HasPre(nd) /\ nd.a # "BeginBlock" =>
   LET p == Pre(nd) IN \A k \in 1..Len(p.gauges) : ~GaugeMoved(p.gauges[k], nd.st.gauges[k])
 
 (* no farmer's payout exceeds its pro-rata share of the epoch allocation by (eligible) farmed value *)
-(* C19_ProRataLetter: the bound exactly as stated (share * (1 + 10^-12));                                       *)
-(* C19_ProRata      : the stated bound plus the slack of the 18-decimal multiplier (value * 10^-18, far below one   *)
-(*                    base unit unless a single farmer's value exceeds 10^18) - anything beyond that is never noise  *)
-ProRataAt(p, nd, k, letter) ==
+(* the bound exactly as stated: payout <= share * (1 + 10^-12) *)
+ProRataAt(p, nd, k) ==
   LET g == p.gauges[k]
       tot == TotalElig(p.pools, g, p.users)
       alloc == AllocNow(g)
-      den == EligDen(p.pools, g)
-  IN \A u \in 1..Len(p.users) :
-        IF letter THEN ProRataOK(Inflow(p, nd, u, g.denom), alloc, Elig(p.pools, g, p.users[u]), tot)
-        ELSE ProRataNoiseOK(Inflow(p, nd, u, g.denom), alloc, Elig(p.pools, g, p.users[u]), tot, den)
+  IN \A u \in 1..Len(p.users) : ProRataOK(Inflow(p, nd, u, g.denom), alloc, Elig(p.pools, g, p.users[u]), tot)
 ProRataChecked(p, nd, k) == nd.st.gauges[k].trig = p.gauges[k].trig + 1 /\ SolePayer(p, nd, k)
 C19ProRata(nd) == nd.a = "BeginBlock" =>
-  LET p == Pre(nd) IN \A k \in 1..Len(p.gauges) : ProRataChecked(p, nd, k) => ProRataAt(p, nd, k, FALSE)
-C19ProRataLetter(nd) == nd.a = "BeginBlock" =>
-  LET p == Pre(nd) IN \A k \in 1..Len(p.gauges) : ProRataChecked(p, nd, k) => ProRataAt(p, nd, k, TRUE)
+  LET p == Pre(nd) IN \A k \in 1..Len(p.gauges) : ProRataChecked(p, nd, k) => ProRataAt(p, nd, k)
 
 (* ------------------------------------------------------------------ conformance *)
 ConfCreate(nd) == nd.a = "CreateGauge" =>
@@ -116,7 +118,9 @@ ConfCreate(nd) == nd.a = "CreateGauge" =>
              ELSE Len(nd.st.gauges) = n /\ nd.st.cust = p.cust /\ nd.st.epochs = p.epochs
 
 EpochTriggers(p, now, dur) == HasEpoch(p.epochs, dur) /\ EpochStep(EpochOf(p.epochs, dur), now).trigger
-PaidOf(g, g2) == LMonus(g2.dist, g.dist)
+PaidOf(g, g2) == PaidBooks(g, g2)
+(* coins a swap-fee gauge pulls from its pair's collector: the balance in the current distribution denom minus the burn share *)
+RecvOf(p, g) == LET avail == p.pools[g.pool].coll[p.distr] IN LMonus(avail, BurnOf(avail, p.burn))
 ConfBlock(nd) == nd.a = "BeginBlock" =>
   LET p == Pre(nd)  now == nd.st.now IN
   /\ ~nd.res.panic
@@ -125,23 +129,28 @@ ConfBlock(nd) == nd.a = "BeginBlock" =>
   /\ Len(nd.st.gauges) = Len(p.gauges)
   /\ \A k \in 1..Len(p.gauges) :
        LET g == p.gauges[k]  g2 == nd.st.gauges[k] IN
-       g.kind = "reg" =>
-         /\ IF EpochTriggers(p, now, g.dur) THEN GaugeEpochRel(p.pools, g, now, PaidOf(g, g2), g2) ELSE SameGauge(g, g2)
-         /\ ProRataChecked(p, nd, k) =>
+       /\ g.kind = "swap" /\ ~p.pools[g.pool].multi =>
+            IF EpochTriggers(p, now, g.dur)
+            THEN /\ SwapEpochRel(p.pools, g, p.distr, RecvOf(p, g), PaidOf(g, g2), g2)
+                 /\ ~SwapBlocked(p.pools, g) => nd.st.pools[g.pool].coll[p.distr] = <<>>
+            ELSE SameGauge(g, g2)
+       /\ g.kind = "reg" =>
+            IF EpochTriggers(p, now, g.dur) THEN GaugeEpochRel(p.pools, g, now, PaidOf(g, g2), g2) ELSE SameGauge(g, g2)
+       /\ ProRataChecked(p, nd, k) =>
               LET tot == TotalElig(p.pools, g, p.users)  alloc == AllocNow(g)
                   funded == LLe(alloc, p.cust[g.denom])     \* custody can cover the whole allocation: every send succeeds
-                  near(u) == PayNear(Inflow(p, nd, u, g.denom), alloc, Elig(p.pools, g, p.users[u]), tot, EligDen(p.pools, g))
+                  near(u) == PayExact(Inflow(p, nd, u, g.denom), alloc, Elig(p.pools, g, p.users[u]), tot)
               IN
               IF funded
               THEN /\ \A u \in 1..Len(p.users) : near(u)
                    /\ LEq(TotalInflow(p, nd, g.denom), PaidOf(g, g2))
-                   /\ LEq(LAdd(nd.st.cust[g.denom], PaidOf(g, g2)), p.cust[g.denom])
+                   /\ CollSame(p, nd.st, g.denom) => LEq(LAdd(nd.st.cust[g.denom], PaidOf(g, g2)), p.cust[g.denom])
               ELSE \* doDistributionSends ignores a failed send (insufficient custody) but the gauge books the computed total
                    /\ \A u \in 1..Len(p.users) : near(u) \/ Inflow(p, nd, u, g.denom) = <<>>
                    /\ LLe(TotalInflow(p, nd, g.denom), PaidOf(g, g2))
-                   /\ LEq(LAdd(nd.st.cust[g.denom], TotalInflow(p, nd, g.denom)), p.cust[g.denom])
+                   /\ CollSame(p, nd.st, g.denom) => LEq(LAdd(nd.st.cust[g.denom], TotalInflow(p, nd, g.denom)), p.cust[g.denom])
 
-FrameActs == {"Farm", "Activate", "EndBlock", "Price", "Donate", "SwapFee", "Locker"}
+FrameActs == {"Farm", "Activate", "EndBlock", "Price", "Donate", "SwapFee", "Locker", "Gov"}
 ConfFrame(nd) == nd.a \in FrameActs /\ HasPre(nd) =>
   LET p == Pre(nd) IN
   /\ Len(nd.st.gauges) = Len(p.gauges) /\ \A k \in 1..Len(p.gauges) : GaugeEq(p.gauges[k], nd.st.gauges[k])
@@ -166,7 +175,7 @@ ConfValue(nd) == ~IsSplit(nd) =>
 
 (* ------------------------------------------------------------------ judge *)
 Formulas == <<"Conf_Split", "Conf_Create", "Conf_Block", "Conf_Frame", "Conf_Value", "Conf_Ext",
-              "C19_SplitSum", "C19_Cumulative", "C19_CustodyRoot", "C19_CustodyDelta", "C19_EpochCap", "C19_OnlyInEpoch", "C19_ProRata", "C19_ProRataLetter">>
+              "C19_SplitSum", "C19_Cumulative", "C19_CustodyRoot", "C19_CustodyDelta", "C19_EpochCap", "C19_OnlyInEpoch", "C19_ProRata">>
 Holds(f, i) ==
   LET nd == Nd(i) IN
   CASE f = "Conf_Split" -> ConfSplit(nd)
@@ -182,7 +191,6 @@ Holds(f, i) ==
     [] f = "C19_EpochCap" -> C19EpochCap(nd)
     [] f = "C19_OnlyInEpoch" -> C19OnlyInEpoch(nd)
     [] f = "C19_ProRata" -> C19ProRata(nd)
-    [] f = "C19_ProRataLetter" -> C19ProRataLetter(nd)
 
 Judge == cur > 0 => \A k \in 1..Len(Formulas) : Holds(Formulas[k], cur) \/ PrintT(<<"FAIL", Formulas[k], cur>>)
 
@@ -196,7 +204,17 @@ PChecked(p, nd, k) == ProRataChecked(p, nd, k)
 PPaid(p, nd, k)    == ProRataChecked(p, nd, k) /\ ~LEq(TotalInflow(p, nd, p.gauges[k].denom), <<>>)
 PMaster(p, nd, k)  == ProRataChecked(p, nd, k) /\ p.gauges[k].kind = "reg" /\ UseMaster(p.pools, p.gauges[k])
                         /\ ~LEq(TotalInflow(p, nd, p.gauges[k].denom), <<>>)
-PSwapPaid(p, nd, k) == p.gauges[k].kind = "swap" /\ ~LEq(p.gauges[k].dist, nd.st.gauges[k].dist)
+SwapPaidSome(p, nd, k) == p.gauges[k].kind = "swap" /\ PaidBooks(p.gauges[k], nd.st.gauges[k]) # <<>>
+PSwapPaid(p, nd, k) == SwapPaidSome(p, nd, k)
+PSwapSwitch(p, nd, k) == p.gauges[k].kind = "swap" /\ nd.st.gauges[k].denom # p.gauges[k].denom
+PSwapNewDenomPaid(p, nd, k) == SwapPaidSome(p, nd, k) /\ nd.st.gauges[k].ddenom # p.gauges[k].ddenom
+PSwapProRata(p, nd, k) == p.gauges[k].kind = "swap" /\ ProRataChecked(p, nd, k) /\ ~LEq(TotalInflow(p, nd, p.gauges[k].denom), <<>>)
+PSwapBurn(p, nd, k) == p.gauges[k].kind = "swap" /\ nd.st.gauges[k].trig > p.gauges[k].trig /\ p.burn.num > 0
+                         /\ BurnOf(p.pools[p.gauges[k].pool].coll[p.distr], p.burn) # <<>>
+PMultiPaid(p, nd, k) == SwapPaidSome(p, nd, k) /\ p.pools[p.gauges[k].pool].multi
+PFeeShared(p, nd, k) == SwapPaidSome(p, nd, k) /\ \E j \in 1..Len(p.gauges) :
+                          p.gauges[j].kind = "reg" /\ p.gauges[j].active /\ p.gauges[j].denom = p.gauges[k].denom
+                          /\ LLt(p.gauges[j].dist, p.gauges[j].dep)
 PEnded(p, nd, k)   == p.gauges[k].active /\ ~nd.st.gauges[k].active
 PNoPrice(p, nd, k) == p.gauges[k].kind = "reg" /\ EpochTriggers(p, nd.st.now, p.gauges[k].dur) /\ p.gauges[k].active
                         /\ nd.st.now >= p.gauges[k].start /\ p.gauges[k].trig < p.gauges[k].tot /\ ~Distributable(p.pools, p.gauges[k])
@@ -221,6 +239,14 @@ Stats == PrintT(<<"STATS", [nodes |-> NLog,
    proRataPaid |-> GaugeEpochs(PPaid),
    masterPaid |-> GaugeEpochs(PMaster),
    swapFeePaid |-> GaugeEpochs(PSwapPaid),
+   swapDenomSwitch |-> GaugeEpochs(PSwapSwitch),
+   swapNewDenomPaid |-> GaugeEpochs(PSwapNewDenomPaid),
+   swapProRataPaid |-> GaugeEpochs(PSwapProRata),
+   swapBurnEpochs |-> GaugeEpochs(PSwapBurn),
+   swapSharedDenomPaid |-> GaugeEpochs(PFeeShared),
+   multiPoolSwapPaid |-> GaugeEpochs(PMultiPaid),
+   multiNoPriceBlocks |-> Cardinality({i \in Blocks : Nd(i).res.multiNoPrice}),
+   govDenomChanges |-> Cardinality({i \in 1..NLog : Nd(i).a = "Gov" /\ Nd(i).st.distr # Pre(Nd(i)).distr}),
    sharedDenomEpochs |-> GaugeEpochs(PShared),
    gaugesEnded |-> GaugeEpochs(PEnded),
    noPriceEpochs |-> GaugeEpochs(PNoPrice),
